@@ -28,8 +28,9 @@ def env():
         from nauyaca.security.certificates import generate_self_signed_cert
         from nauyaca.security.pyopenssl_tls import create_pyopenssl_server_context
 
-        d = tempfile.mkdtemp(prefix="nv-pump-")
-        atexit.register(shutil.rmtree, d, True)
+        from .. import core as _core
+
+        d = _core.mkdtemp("nv-pump-")
         c, k = generate_self_signed_cert("localhost")
         open(d + "/c.pem", "wb").write(c)
         open(d + "/k.pem", "wb").write(k)
